@@ -522,6 +522,9 @@ impl<'a> Cx<'a> {
             Some(t) => t,
             None => return Ok(None),
         };
+        if rty == Ty::Raw {
+            return Ok(Some(self.lower_method_raw(m)?));
+        }
         let noargs = |n: usize| -> R<()> {
             if n != 0 {
                 err(sp, "method takes no argument")
